@@ -48,7 +48,11 @@ let tids l = String.concat "," (List.map (fun x -> string_of_int (int_of_nat x))
 
 let run_m (n : int) (evs : string list) : string =
   let changes = List.init n (fun t -> Add { dkey = n_of_int (t + 1); dart = N0; dpay = N0 }) in
-  match vis_summary false None changes (List.map parse_vis evs) with
+  let vs = List.map parse_vis evs in
+  let coarse = vis_summary false None changes vs in
+  (* the channel-level system (Model/MergeFine.v) replays the same schedule: it must agree *)
+  if fvis_summary false None changes vs <> coarse then "MODELS-DISAGREE (Merge.v vs MergeFine.v)" else
+  match coarse with
   | None -> "REJECT"
   | Some (((rs, idx), log), _) ->
     let batches = List.filter_map (function OBatch (m, ms) -> Some (Printf.sprintf "%d:%s" (int_of_nat m) (tids ms)) | _ -> None) log in
@@ -61,7 +65,10 @@ let run_m (n : int) (evs : string list) : string =
 let run_x ?(cmp_dangling = true) (sg : bool) (init0 : string) (changes : change list) (evs : string list) : string =
   let r0 = if init0 = "none" then None else Some (List.map (fun k -> { dkey = n_of_int (int_of_string k); dart = N0; dpay = N0 })
                                                   (if init0 = "-" then [] else String.split_on_char ',' init0)) in
-  match vis_summary sg r0 changes (List.map parse_vis evs) with
+  let vs = List.map parse_vis evs in
+  let coarse = vis_summary sg r0 changes vs in
+  if fvis_summary sg r0 changes vs <> coarse then "MODELS-DISAGREE (Merge.v vs MergeFine.v)" else
+  match coarse with
   | None -> "REJECT"
   | Some (((rs, idx), log), dg) ->
     let keys l = if l = [] then "-" else String.concat "," (List.map (fun k -> string_of_int (int_of_n k)) l) in
